@@ -18,9 +18,9 @@ Record Invx (s : sysx) : Prop := mkInvx {
 Lemma invx_init t0 : Invx (sysx_init t0).
 Proof. split; [apply inv_init|cbn; discriminate]. Qed.
 
-Lemma do_rx_handles s m : handles (fst (do_rx s m)) = handles s.
+Lemma do_rx_core_handles s m : handles (fst (do_rx_core s m)) = handles s.
 Proof.
-  unfold do_rx.
+  unfold do_rx_core.
   repeat match goal with
          | |- context [match ?x with _ => _ end] =>
              match type of x with
@@ -29,6 +29,13 @@ Proof.
              end
          | |- context [let '(_, _) := ?x in _] => destruct x
          end; reflexivity.
+Qed.
+
+Lemma do_rx_handles s m : handles (fst (do_rx s m)) = handles s.
+Proof.
+  unfold do_rx. pose proof (do_rx_core_handles s m) as H. destruct (do_rx_core s m) as [s1 ev].
+  cbn [fst] in H. destruct (rx_sid s m); [|exact H].
+  destruct (m_group m && negb (is_holding (rx s1))); exact H.
 Qed.
 
 (** Exchange objects disappear only through [Exchange::drop] *)
@@ -225,8 +232,8 @@ Proof. intros R. apply (invx_core _ (reachablex_inv _ R)). Qed.
 
 (** * The unrepaired init_send clears another exchange's queued packet *)
 
-Definition wx_m1 : msg := mkMsg 1 true false 1 10 true OpOrdinary false None.
-Definition wx_m2 : msg := mkMsg 2 true false 1 20 true OpOrdinary false None.
+Definition wx_m1 : msg := mkMsg 1 true false false 1 10 true OpOrdinary false None.
+Definition wx_m2 : msg := mkMsg 2 true false false 1 20 true OpOrdinary false None.
 Definition wx_trace : list labelx :=
   [XCore (LAddSession 1 true false); XCore (LAddSession 2 true false);
    XCore (LRx wx_m1); XCore LAccept; XCore (LRecv 0 0); XCore (LRxDone 0 0);
